@@ -58,6 +58,7 @@ ROOT_TYPES = {
 ENTRY_NAMES = ("decode", "decode_if_type", "decode_ber", "read", "read_named", "take_from", "from_constructed")
 
 DECODE_TY = re.compile(r"bcder::decode::(Constructed|Content|Primitive)<")
+OWN_TRAIT = re.compile(r"^(repository|crypto|ca|resources|uri|rrdp|util|rtr|slurm|xml)::")
 OWN_TY = re.compile(r"((?:repository|crypto|ca|resources|uri|rrdp|util|rtr|slurm|xml)::[\w:]+)")
 
 # Calls that panic when a precondition on their arguments is violated (frozen list; std/bytes/chrono API review).
@@ -378,6 +379,12 @@ def len_leaves(t, acc):
 
 def rule_len_arith(site):
     """P0-len: a usize sum of at most two in-memory lengths (or indices into them) and a small constant."""
+    if site.kind == "assert:Overflow:Mul" and len(site.ops) == 2:
+        acc = [0, 0]
+        c = const_eval(site.ops[1])
+        if c is not None and 0 <= c <= 2 and len_leaves(site.ops[0], acc) and acc == [1, 0]:
+            return "a buffer length (at most isize::MAX) times %d cannot wrap usize" % c
+        return None
     if site.kind != "assert:Overflow:Add" or len(site.ops) != 2:
         return None
     # the operation must be on usize
@@ -719,7 +726,10 @@ INVARIANT_TYPES = {
                                   "<repository::x509::Serial as arbitrary::Arbitrary<'a>>::arbitrary"],
                                  "the most significant bit of octet 0 is clear (from_array rejects it, random/arbitrary mask it, "
                                  "the checked_* helpers return None otherwise, division only shrinks)"),
-    "repository::resources::ipres::Prefix": (["repository::resources::ipres::Prefix::new"], "len <= 128 (asserted by new)"),
+    "repository::resources::ipres::Prefix": (["repository::resources::ipres::Prefix::new",
+                                              # feature "compat": `addr.len = min(addr.len, family max)` only lowers len
+                                              "repository::resources::ipres::AddressRange::check_len"],
+                                             "len <= 128 (asserted by new; the compat check_len only lowers it)"),
 }
 
 
@@ -912,10 +922,45 @@ def classify(f, sites):
     return out
 
 
+def callback_closure(f, cg, roots):
+    """Reachability plus rapid type analysis for callbacks: a value of a crate type built in a reachable body can be
+    handed to a library (bcder's encoder, fmt, io) that calls the type's trait methods back, which the call graph
+    cannot see — so the trait-impl methods of every ADT constructed in the reachable set are reachable too."""
+    impl_methods = {}
+    for n, r in f.fns.items():
+        tr = r.get("impl_trait_full") or r.get("impl_trait")
+        # only traits of other crates can be called back invisibly (crate-local trait calls are fanned out by the call
+        # graph); `Arbitrary` is only ever driven by a fuzzer building values, never by a decoder or an accessor
+        if tr and r.get("impl_adt") and r.get("has_body") and not OWN_TRAIT.match(tr) and not tr.startswith("arbitrary::"):
+            impl_methods.setdefault(r["impl_adt"], []).append(n)
+    roots = list(roots)
+    reach = cg.reachable(roots)
+    seen_adts = set()
+    while True:
+        new = []
+        for n in list(reach):
+            b = f.body(n)
+            if b is None:
+                continue
+            for blk in b.blocks:
+                if blk.get("cleanup"):
+                    continue
+                for st in blk["stmts"]:
+                    if st["s"] == "assign" and st["rv"]["r"] == "agg" and st["rv"].get("ak") == "adt":
+                        a = st["rv"]["adt"]
+                        if a not in seen_adts:
+                            seen_adts.add(a)
+                            new += [m for m in impl_methods.get(a, []) if m not in reach]
+        if not new:
+            return reach, seen_adts
+        roots += new
+        reach = cg.reachable(roots)
+
+
 def analyse(f):
     dec, acc, types = find_entries(f)
     cg = CallGraph(f)
-    reach = cg.reachable(dec + acc)
+    reach, _ = callback_closure(f, cg, dec + acc)
     sites = enumerate_sites(f, reach)
     return dec, acc, types, reach, sites, classify(f, sites)
 
